@@ -86,6 +86,24 @@ FOLLOW_UPS = {
     'animtf-cb(.2)': ['animtf-cb', 'animtf-cb(.5, .6)'], 'bgi-url(a.png)': ['bgi'], 'cola-#0': ['cola'], 'kdis-b': ['kdis', 'kdis-a'],
     'cnt-attr(x)': ['cnt-attr', 'cnt'], 'gtc-r(2, 1fr)': ['gtc-r', 'gtc'],
 }
+# completion of a VALUE of a property (context = the property name): (abbreviations typed in that
+# context, property-level probes that resolve keywords of the same property afterwards)
+VALUE_CONTEXTS = {
+    'font-family': (['s', 'a', 'v', 'ss', 'm', 'c'], ['ff:v+ff:a', 'ff-s', 'ffa', 'ffv', 'ff:ss', 'ff']),
+    'background-image': (['l', 'u', 'n', 'lg(#f, #0)'], ['bgi', 'bgi:n', 'lg', 'bgi-l']),
+    'position': (['a', 'r', 'f', 's'], ['pos:a', 'posr', 'pos']),
+    'display': (['b', 'n', 'ib', 'f', 'g'], ['d:b', 'dib', 'dn', 'd']),
+    'transform': (['s(2)', 'r(5)', 't(1, 2)', 'sc'], ['trf-s', 'trf:r', 'trf-t(9)', 'trf']),
+    'border': (['1', 's', 'n', '1-s-#f'], ['bd-n', 'bd1-s', 'bd']),
+    'font-weight': (['b', 'n', '7', 'br'], ['fw:b', 'fwb', 'fw7', 'fw']),
+    'text-align': (['c', 'l', 'r', 'j'], ['ta:c', 'tac', 'ta']),
+    'overflow': (['h', 'a', 's', 'v'], ['ov:h', 'ovh', 'ov']),
+    'cursor': (['p', 'a', 'd'], ['cur:p', 'curp', 'cur']),
+    'margin': (['a', '10', '0-a', '1.5'], ['m:a', 'm10', 'm0-auto', 'kmar']),
+    'zoom': (['1', '2', 'n'], ['zom', 'zom2']),
+    'content': (['n', 'oq', 'attr(x)'], ['cnt', 'cnt:n', 'cnt-attr']),
+    'grid-template': (['n', 'r(2, 1fr)'], ['gt', 'gtx', 'gtx-r']),
+}
 SYNTAX_PROBES = {
     'pug': ['!', '!!!', 'html:5', 'doc', '!!!+p'], 'xsl': ['tm', 'choose', 'xsl', '!!!', 'ap', 'wp[name=a select=b]>div', 'vare'],
     'jsx': ['.a', '..a', 'label[for=x]', 'Foo.Bar', 'div.{x.y}'], 'vue': ['..a', '.a'], 'svelte': ['div.{x}', 'p[a={b}]'],
